@@ -378,7 +378,7 @@ Lemma outer_passes et lg act hd (E : st -> hres) r e y c t :
   let x := server et (log_mw et lg (gzip_mw et act (header_mw hd E))) in
   cm x = Some c /\ sup x = 0%nat /\ view x = (false, t).
 Proof.
-  intros HE Hr (Ag & Ac & As & Av). unfold server, log_mw, gzip_mw, header_mw.
+  intros HE Hr (Ag & Ac & As & Av). unfold server, log_mw, log_next, gzip_mw, header_mw.
   assert (Eh : (if hd then E (set_chdr (set_h (enter_gzip act st0) true false)
                                  (hset (hdel (chdr (enter_gzip act st0)) K_XDEL) K_XCFG V_CFG))
                 else E (enter_gzip act st0)) = HRet r e y).
@@ -404,7 +404,7 @@ Lemma outer_fallback_ret et lg hd (E : st -> hres) ret err x1 :
   let r := server et (log_mw et lg (gzip_mw et false (header_mw hd E))) in
   cm r = Some ret /\ sup r = 0%nat /\ view r = (false, et ret).
 Proof.
-  intros HE F G R1 Hv Hb. unfold server, log_mw, gzip_mw, header_mw.
+  intros HE F G R1 Hv Hb. unfold server, log_mw, log_next, gzip_mw, header_mw.
   assert (Eh : (if hd then E (set_chdr (set_h st0 true false) (hset (hdel (chdr st0) K_XDEL) K_XCFG V_CFG))
                 else E st0) = HRet ret err x1).
   { rewrite <- HE. unfold entry, enter_header, enter_gzip. destruct hd; reflexivity. }
@@ -419,7 +419,7 @@ Lemma outer_fallback_pan et lg hd (E : st -> hres) x1 :
   let r := server et (log_mw et lg (gzip_mw et false (header_mw hd E))) in
   cm r = Some 500 /\ sup r = 0%nat /\ view r = (false, et 500).
 Proof.
-  intros HE F G. unfold server, log_mw, gzip_mw, header_mw.
+  intros HE F G. unfold server, log_mw, log_next, gzip_mw, header_mw.
   assert (Eh : (if hd then E (set_chdr (set_h st0 true false) (hset (hdel (chdr st0) K_XDEL) K_XCFG V_CFG))
                 else E st0) = HPan x1).
   { rewrite <- HE. unfold entry, enter_header, enter_gzip. destruct hd; reflexivity. }
